@@ -330,6 +330,9 @@ class Machine:
             elif op == "append":
                 name = None
                 self._append(step)
+            elif op == "late":
+                name = None
+                self._late(step)
             else:
                 raise core.HarnessError("unknown step " + op)
         except (core.HarnessError, core.Abort):
@@ -338,6 +341,29 @@ class Machine:
             exc = e
             name = None
         return name, exc, self.announced[before:]
+
+    def _late(self, step):
+        """Decorate a member of an existing class with the public decorators and re-bind it (K.m = require(...)(K.m))."""
+        unit = step["unit"]
+        role = step["role"]
+        cname, m = unit.split(".")
+        cls = self.world.classes[cname]
+        cur = cls.__dict__.get(m)
+        if cur is None:
+            raise core.HarnessError("late decoration of a member the class does not define itself")
+        spec_own = [x for x in self.world.cspec[cname].get("methods", ()) if x["name"] == m and x.get("kind", "method") == "method"]
+        if not spec_own:
+            raise core.HarnessError("late decoration of a member the class does not declare itself")
+        n = len([s for s in self.world.contracts if s.startswith("%s/%s" % (unit, role))])
+        sid = "%s/%s%d" % (unit, role, n + 10)
+        if role == "pre":
+            dec = icontract.require(self.world._fn("c_" + core._san(sid), ("t",), "sync", sid, "pre"), description="[[%s]]" % sid, enabled=True)
+        else:
+            dec = icontract.ensure(self.world._fn("c_" + core._san(sid), ("t", "result"), "sync", sid, "post"), description="[[%s]]" % sid, enabled=True)
+        new = dec(cur)
+        setattr(cls, m, new)
+        self.world.contracts[sid] = dec._contract
+        return sid
 
     def _append(self, step):
         unit = step["unit"]
